@@ -186,7 +186,19 @@ def run(chk: Check):
             cfg["lineup"] = [(nm, max(bs, 2), cs) for nm, bs, cs in cfg["lineup"]]
             n = max(n, 4)
             chk.count("model:raises_for_some_seeds")
+        if i == 7:
+            # a long history (hundreds of points after the first batch) in front of the history-driven samplers: whatever they do differently on large
+            # training sets, they do it with the generators the calibrator seeded
+            cfg["lineup"] = [("HaltonSampler", 640, None), ("GaussianProcessSampler", 2, None), ("RandomForestSampler", 2, None), ("XGBoostSampler", 2, None), ("BestBatchSampler", 2, None)]
+            cfg["dims"], cfg["ensemble"], cfg["loss"], cfg["sched"] = 2, 1, "minkowski", "rr"
+            cfg.pop("model", None); cfg.pop("agent_eps", None)
+            n = 5
+            chk.count("history_of_more_than_600_points_before_the_surrogates")
+        # the process-wide generators (numpy's legacy global stream, Python's random module) are nobody's configuration: they differ between the two runs of a pair
+        import random as _random
+        np.random.seed(1234 + i); _random.seed(1234 + i)
         base, rets, _ = twin.run_segments(cfg, [(n, "end")], use_folder=False)
+        np.random.seed(99 + 7 * i); _random.seed(99 + 7 * i)
         other = copy.deepcopy(cfg)
         changed = []
         if rng.random() < 0.6 or cfg.get("model") in ("mutating", "raising"):
